@@ -35,6 +35,8 @@ THEOREMS = [
     "Opacus.C10.logical_any",
     "Opacus.C10.bmm_refines_unsplit_one",
     "Opacus.C10.bmm_refines_unsplit",
+    "Opacus.C10.optZeroGrad_idempotent",
+    "Opacus.C10.modZeroGrad_idempotent",
 ]
 RULE = (
     "sampler cases = (n, max_physical) with n in 0..200; engine cases = (optimizer kind, accountant, logical batch sizes incl. 0, max_physical) "
